@@ -4,7 +4,7 @@ namespace Mutagen.Driver.C46
 open Mutagen.Driver Mutagen.Model.Bundle
 
 /-!
-Line: `<exe dir name> <state of <exe dir>/bundle> <state of ../libexec/bundle> <goos hex> <goarch hex> <o|t>`
+Line (`%20` in the directory name stands for a space): `<exe dir name> <state of <exe dir>/bundle> <state of ../libexec/bundle> <goos hex> <goarch hex> <o|t>`
 
 States (concrete layouts made by the harness → abstract `LocState`):
 `A0` directory missing, `A1` directory without bundle, `S` dangling symbolic
@@ -51,6 +51,7 @@ def handle (line : String) : String :=
   | [dirName, s1, s2, goos, goarch, out] =>
     match parseState s1, parseState s2, decHex goos, decHex goarch with
     | some st1, some st2, some goos, some goarch =>
+      let dirName := dirName.replace "%20" " "
       let exe : Path := ["w", dirName, "c46"]
       let fs : Path → LocState := fun p =>
         if p = ["w", dirName] then st1 else if p = ["w", "libexec"] then st2 else .absent
